@@ -10,6 +10,7 @@ package main
 
 import (
 	"fmt"
+	"path/filepath"
 	"strings"
 
 	"golang.org/x/tools/go/ssa"
@@ -70,16 +71,20 @@ type threadWorld struct {
 type threadKilled struct{}
 
 var threadStubs = map[string]stubFn{
-	"(*sync.Mutex).Lock":            stubMutexLock,
-	"(*sync.Mutex).Unlock":          stubMutexUnlock,
-	"(*sync.WaitGroup).Add":         stubWGAdd,
-	"(*sync.WaitGroup).Done":        stubWGDone,
-	"(*sync.WaitGroup).Wait":        stubWGWait,
-	"os/exec.Command":               stubExecCommand,
-	"(*os/exec.Cmd).Run":            stubCmdRun,
-	"(*os/exec.Cmd).Output":         stubCmdOutput,
-	"(*os/exec.Cmd).CombinedOutput": stubCmdOutput,
-	"os.WriteFile":                  stubWriteFile,
+	"(*sync.Mutex).Lock":                         stubMutexLock,
+	"(*sync.Mutex).Unlock":                       stubMutexUnlock,
+	"(*sync.WaitGroup).Add":                      stubWGAdd,
+	"(*sync.WaitGroup).Done":                     stubWGDone,
+	"(*sync.WaitGroup).Wait":                     stubWGWait,
+	"os/exec.Command":                            stubExecCommand,
+	"(*os/exec.Cmd).Run":                         stubCmdRun,
+	"(*os/exec.Cmd).Output":                      stubCmdOutput,
+	"(*os/exec.Cmd).CombinedOutput":              stubCmdOutput,
+	"os.WriteFile":                               stubWriteFile,
+	"os.Stat":                                    stubStat,
+	"path/filepath.Abs":                          stubAbs,
+	"golang.org/x/tools/go/packages.Load":        stubPackagesLoad,
+	"golang.org/x/tools/go/packages.PrintErrors": stubPrintErrors,
 }
 
 func (p *path) ensureWorld() *threadWorld {
@@ -519,4 +524,89 @@ func vfThreads(p *path, _ *frame, a []value) value {
 	p.reached[w.raceClause]++
 	p.reached[w.deadlockClause]++
 	return nil
+}
+
+// --- file system / packages.Load model (C17): the harness plans which files exist and what
+// packages.Load returns.
+
+type loadPlan struct {
+	files    map[string]bool // existing files
+	result   value           // []*packages.Package returned by packages.Load
+	nbErrors int
+	loadErr  bool
+	calls    int
+	dir      string
+}
+
+func (p *path) plan() *loadPlan {
+	if p.loadPlan == nil {
+		p.loadPlan = &loadPlan{files: map[string]bool{}}
+	}
+	return p.loadPlan
+}
+
+func vfFileExists(p *path, _ *frame, a []value) value {
+	p.plan().files[p.argName(a[0])] = a[1].(*Term).IsTrue()
+	return nil
+}
+
+func vfLoadResult(p *path, _ *frame, a []value) value {
+	pl := p.plan()
+	pl.result = a[0]
+	if i, ok := a[0].(iface); ok {
+		pl.result = i.v
+		if i.t == nil {
+			pl.result = []value(nil)
+		}
+	}
+	pl.nbErrors = int(p.argInt(a[1]))
+	return nil
+}
+
+func vfLoadDir(p *path, _ *frame, a []value) value { return p.mkStr(p.plan().dir) }
+
+func stubStat(p *path, _ *frame, a []value) value {
+	name := a[0].(Str)
+	if !name.IsConcrete() {
+		p.unsupported("os.Stat on a symbolic name")
+	}
+	exists, planned := p.plan().files[name.Concrete()]
+	if !planned {
+		p.unsupported("os.Stat on a file the harness did not plan: " + name.Concrete())
+	}
+	if exists {
+		return tuple{iface{}, iface{}}
+	}
+	return tuple{iface{}, iface{t: errorDynType, v: p.newError(p.mkStr("stat "+name.Concrete()+": no such file or directory"), "")}}
+}
+
+func stubAbs(p *path, _ *frame, a []value) value {
+	name := a[0].(Str)
+	if !name.IsConcrete() || !strings.HasPrefix(name.Concrete(), "/") {
+		p.unsupported("filepath.Abs on a symbolic or relative path")
+	}
+	return tuple{p.mkStr(filepath.Clean(name.Concrete())), iface{}}
+}
+
+func stubPackagesLoad(p *path, fr *frame, a []value) value {
+	pl := p.plan()
+	pl.calls++
+	// record Config.Dir (first field access by name through the struct layout of the config)
+	if cfgPtr, ok := a[0].(*value); ok && cfgPtr != nil {
+		if st, isSt := (*cfgPtr).(structure); isSt {
+			for _, f := range st {
+				if s, isStr := f.(Str); isStr && s.IsConcrete() && strings.HasPrefix(s.Concrete(), "/") {
+					pl.dir = s.Concrete()
+				}
+			}
+		}
+	}
+	if pl.result == nil {
+		p.unsupported("packages.Load without a planned result")
+	}
+	return tuple{pl.result, iface{}}
+}
+
+func stubPrintErrors(p *path, _ *frame, a []value) value {
+	return p.tc.BV(64, uint64(p.plan().nbErrors))
 }
